@@ -315,6 +315,35 @@ def literal_cases(rng):
         m = rng.randint(0, 10**17)
         e = rng.randint(-320, 300)
         floats.append("%d.%de%d" % (m // 1000, m % 1000, e))
+    # literals a hair above / below the midpoint of two neighbouring doubles: a conversion that rounds twice (through a wider
+    # floating-point format first) lands on the wrong neighbour exactly here.  The midpoint is written out exactly (it is a dyadic rational).
+    from fractions import Fraction
+    import math
+
+    def exact(fr):
+        """finite decimal expansion of a dyadic rational"""
+        k = 0
+        den = fr.denominator
+        while den % 2 == 0:
+            den //= 2
+            k += 1
+        assert den == 1
+        num = fr.numerator * 5 ** k
+        sgn, ds = ("-" if num < 0 else ""), str(abs(num))
+        if k == 0:
+            return sgn + ds + ".0"
+        ds = ds.rjust(k + 1, "0")
+        return sgn + ds[:-k] + "." + ds[-k:]
+    floats += ["9007199254740993.0001", "1.00000000000000011102230246251565404236316680908203126", "4503599627370496.50000001"]
+    for _ in range(120):
+        d = rng.choice([rng.uniform(0.5, 2.0), rng.uniform(1e3, 1e6), float(rng.randint(2 ** 52, 2 ** 53)), rng.uniform(1e-5, 1e-3), float(2 ** rng.randint(1, 60))])
+        nx = math.nextafter(d, math.inf)
+        mid = (Fraction(d) + Fraction(nx)) / 2
+        txt = exact(mid)
+        if len(txt) > 900:
+            continue
+        floats.append(txt + "0000000001")                     # just above the midpoint: the upper neighbour is nearest
+        floats.append(exact(mid - Fraction(1, 10 ** (len(txt) + 4)) if False else mid)[:-1] + str(max(0, int(txt[-1]) - 1)) + "99999999")   # just below
     return out, floats
 
 
@@ -507,6 +536,39 @@ def run(ctx):
             continue
         if h != want:
             lit_bad.append(("double", x, want, h))
+    # identifiers at the length limit of the lexer: the declared variable of exactly the greatest accepted length, one character less,
+    # one and two more; a name that is not reported must arrive whole (C02_identifier_not_truncated)
+    try:
+        limit = int(re.search(r"MAXLEN\s*=\s*(\d+)", open(os.path.join(core.REPO, "src", "libparser.h")).read()).group(1)) - 1
+    except Exception:  # noqa
+        limit = 4000
+    names = ["n" * limit, "n" * (limit - 1), "n" * (limit + 1), "n" * (limit + 2), "n" * limit + " + 1", "1 + " + "n" * (limit + 1)]
+    _, ml, _ = run_lines(drv, ["P\t" + x for x in names])
+    _, hl, _ = run_lines(har, ["P\t" + x for x in names])
+    for x, mo, h in zip(names, ml, hl):
+        kind, val = classify(h)
+        ids = re.findall(r"\(IDENTIFIER (n+)\)", h)
+        want = re.findall(r"n+", x)
+        if kind == "tree" and ids != want:
+            ctx.finding("identifier:silently-truncated", "an identifier of %d characters arrives in the tree with %s characters and no diagnostic"
+                        % (len(want[0]), [len(i) for i in ids]), {"entry": "parse_XTA(text, builder, true, S_EXPRESSION)", "text_length": len(x),
+                                                                   "text_head": x[:40], "observed_head": h[:80]})
+        elif same(mo, h) is False:
+            dis_model.append(("long-identifier", x[:30] + "...(%d characters)" % len(x), mo[:80], h[:80]))
+    # the same for string literals (the limit counts the two quotes)
+    strs = ['"%s"' % ("s" * k) for k in (limit - 3, limit - 2, limit - 1, limit, limit + 1000)]
+    _, ml, _ = run_lines(drv, ["P\t" + x for x in strs])
+    _, hl, _ = run_lines(har, ["P\t" + x for x in strs])
+    for x, mo, h in zip(strs, ml, hl):
+        kind, val = classify(h)
+        got = re.findall(r"\(CONSTANT string (s+)\)", h)
+        if kind == "tree" and got != [x[1:-1]]:
+            ctx.finding("literal:string:silently-truncated", "a string literal of %d characters arrives with %s characters and no diagnostic"
+                        % (len(x) - 2, [len(i) for i in got]), {"entry": "parse_XTA(text, builder, true, S_EXPRESSION)", "text_length": len(x),
+                                                                  "observed_head": h[:80]})
+        elif same(mo, h) is False:
+            dis_model.append(("long-string", "string literal of %d characters" % (len(x) - 2), mo[:80], h[:80]))
+    cov["identifier_length_limit"] = limit
     # 4 classify ----------------------------------------------------------------------------------
     dis_spec.sort(key=lambda d: (len(d[1].split()), d[1]))     # smallest texts first: they are the minimal replays
     for origin, text, s, h in dis_spec[:8]:
